@@ -550,14 +550,31 @@ static void case_kde(Rng& rng, uint64_t index)
 	// the estimate is normalised with the interpolation's own integral: one to rounding of Interpolation::Integrate (eps x height x |x| per piece, 150 pieces)
 	double tolI = 1e-9 + 64 * EPS * 150 * (1 + std::max(std::fabs(x0), std::fabs(x1)) / W);
 	judge("kde-integrates-to-one-over-its-window", std::fabs(I - 1.0), tolI, [&] { return J().d("integral", I); });
-	double mn = INFINITY;
+	double mn = INFINITY, peak = 0;
+	std::vector<double> scan(1001);
 	for(int m = 0; m <= 1000; m++)
 	{
 		double x = std::min(x1, std::max(x0, x0 + W * m / 1000.0));
-		double v = kde(x);
-		mn		 = std::min(mn, v);
+		scan[m]	 = kde(x);
+		peak	 = std::max(peak, scan[m]);
 	}
-	require("kde-non-negative", mn >= 0.0, [&] { return J().d("smallest_value_on_scan", mn); });
+	// non-negative to the rounding of the interpolating cubic: its terms are of the size of the neighbouring table values (150 knots: 7 scan points per
+	// interval), and where the estimate has decayed below 1e-290 of its peak - the subnormal range, reached in windows next to the sample - a value of
+	// -2e-305 is that rounding (thorough tier, kde#2183 at VERIF_SEED=1)
+	double worst = 0;
+	for(int m = 0; m <= 1000; m++)
+	{
+		double local = 0;
+		for(int d = -14; d <= 14; d++)
+			if(m + d >= 0 && m + d <= 1000)
+				local = std::max(local, std::fabs(scan[m + d]));
+		double allowed = 64 * EPS * local + 1e-290 * peak;
+		if(scan[m] < mn)
+			mn = scan[m];
+		if(scan[m] < 0)
+			worst = std::max(worst, -scan[m] / allowed);
+	}
+	judge("kde-non-negative", worst, 1.0, [&] { return J().d("smallest_value_on_scan", mn).d("peak", peak); });
 	if(index % 199 == 0)
 		sample(J().d("integral", I).d("minimum_on_scan", mn));
 }
